@@ -1490,3 +1490,127 @@ def _collect_vec(ex, fn, args):
 
 
 PREFIX_MODELS.append(('<std::vec::Vec as std::iter::FromIterator>::from_iter', _collect_vec))
+
+
+# ---------------------------------------------------------------------------------------- BTreeMap<u16, u32> (finite map, ordered iteration)
+class MapV:
+    """finite map with concrete keys and symbolic values"""
+
+    def __init__(self, d=None):
+        self.d = dict(d or {})
+
+    def __repr__(self):
+        return 'Map(%r)' % sorted(self.d)
+
+
+def _key(ex, k):
+    k = ex.read_ref(k)
+    c = concrete(k)
+    if c is None:
+        raise Unsupported('BTreeMap with a symbolic key')
+    return c, k.size()
+
+
+@model('std::collections::BTreeMap::new', '<std::collections::BTreeMap as std::default::Default>::default')
+def _map_new(ex, fn, args):
+    return MapV()
+
+
+@model('std::collections::BTreeMap::insert')
+def _map_insert(ex, fn, args):
+    m = deref(ex, args[0], MapV)
+    k, w = _key(ex, args[1])
+    old = m.d.get(k)
+    m.d[k] = (args[2], w)
+    return some(old[0]) if old is not None else NONE
+
+
+@model('std::collections::BTreeMap::get', 'std::collections::BTreeMap::get_mut')
+def _map_get(ex, fn, args):
+    m = deref(ex, args[0], MapV)
+    k, w = _key(ex, args[1])
+    if k not in m.d:
+        return NONE
+    cell = Cell(m.d[k][0])
+    return some(Ref(cell))
+
+
+@model('std::collections::BTreeMap::contains_key')
+def _map_contains(ex, fn, args):
+    m = deref(ex, args[0], MapV)
+    k, w = _key(ex, args[1])
+    return z3.BoolVal(k in m.d)
+
+
+@model('std::collections::BTreeMap::remove')
+def _map_remove(ex, fn, args):
+    m = deref(ex, args[0], MapV)
+    k, w = _key(ex, args[1])
+    if k in m.d:
+        return some(m.d.pop(k)[0])
+    return NONE
+
+
+@model('std::collections::BTreeMap::len')
+def _map_len(ex, fn, args):
+    return B64(len(deref(ex, args[0], MapV).d))
+
+
+@model('std::collections::BTreeMap::is_empty')
+def _map_is_empty(ex, fn, args):
+    return z3.BoolVal(not deref(ex, args[0], MapV).d)
+
+
+@model('<std::collections::BTreeMap as std::clone::Clone>::clone')
+def _map_clone(ex, fn, args):
+    return MapV(deref(ex, args[0], MapV).d)
+
+
+@model('std::collections::BTreeMap::clear')
+def _map_clear(ex, fn, args):
+    deref(ex, args[0], MapV).d.clear()
+    return UNIT
+
+
+@model('std::collections::BTreeMap::iter', '<&std::collections::BTreeMap as std::iter::IntoIterator>::into_iter')
+def _map_iter(ex, fn, args):
+    m = deref(ex, args[0], MapV)
+    items = [Agg([Ref(Cell(BV(k, m.d[k][1]))), Ref(Cell(m.d[k][0]))]) for k in sorted(m.d)]
+    return IterV(items, 0, len(items), False)
+
+
+@model('std::collections::BTreeMap::keys')
+def _map_keys(ex, fn, args):
+    m = deref(ex, args[0], MapV)
+    items = [Ref(Cell(BV(k, m.d[k][1]))) for k in sorted(m.d)]
+    return IterV(items, 0, len(items), False)
+
+
+@model('std::collections::BTreeMap::values')
+def _map_values(ex, fn, args):
+    m = deref(ex, args[0], MapV)
+    items = [Ref(Cell(m.d[k][0])) for k in sorted(m.d)]
+    return IterV(items, 0, len(items), False)
+
+
+def _btree_iter_next(ex, fn, args):
+    return _iter_next(ex, fn, args)
+
+
+PREFIX_MODELS.append(('<std::collections::btree_map::Iter as std::iter::Iterator>::next', _btree_iter_next))
+PREFIX_MODELS.append(('<std::collections::btree_map::Keys as std::iter::Iterator>::next', _btree_iter_next))
+PREFIX_MODELS.append(('<std::collections::btree_map::Values as std::iter::Iterator>::next', _btree_iter_next))
+PREFIX_MODELS.append(('<std::collections::btree_map::Iter as std::iter::Iterator>::size_hint', _iter_size_hint))
+
+
+@model('<std::slice::Iter as std::iter::Iterator>::__iterator_get_unchecked', '<std::slice::IterMut as std::iter::Iterator>::__iterator_get_unchecked')
+def _iter_get_unchecked(ex, fn, args):
+    it = deref(ex, args[0], IterV)
+    i = concrete(args[1])
+    if i is None:
+        raise Unsupported('symbolic zip index')
+    return elem_ref(it.lst, it.a + i) if it.by_ref else it.lst[it.a + i]
+
+PREFIX_MODELS.append(('<std::collections::btree_map::Iter as std::iter::IntoIterator>::into_iter', lambda ex, fn, args: args[0]))
+PREFIX_MODELS.append(('<std::collections::btree_map::Keys as std::iter::IntoIterator>::into_iter', lambda ex, fn, args: args[0]))
+PREFIX_MODELS.append(('<std::collections::btree_map::Values as std::iter::IntoIterator>::into_iter', lambda ex, fn, args: args[0]))
